@@ -202,6 +202,8 @@ val rev : 'a1 list -> 'a1 list
 
 val rev_append : 'a1 list -> 'a1 list -> 'a1 list
 
+val concat : 'a1 list list -> 'a1 list
+
 val map : ('a1 -> 'a2) -> 'a1 list -> 'a2 list
 
 val flat_map : ('a1 -> 'a2 list) -> 'a1 list -> 'a2 list
@@ -329,6 +331,8 @@ type 'a res =
 | Err of n
 | Panic
 | OutOfFuel
+
+val bind : 'a1 res -> ('a1 -> 'a2 res) -> 'a2 res
 
 val e_short : n
 
@@ -960,6 +964,81 @@ val spec_get_asymmetric_start_key :
 val spec_make_key :
   (bytes -> bytes) -> (bytes -> bytes) -> (bytes -> bytes) -> bytes -> bytes
   -> bool -> bytes res
+
+val vSA_TYPE : z
+
+val walk : nat -> bytes -> (n * bytes) list * bytes
+
+val subattrs : bytes -> (n * bytes) list * bytes
+
+val vsa_payload : n -> avp -> bytes option
+
+val values_of : n -> (n * bytes) list -> bytes list
+
+val gets_vendor : n -> n -> attrs -> bytes list
+
+val vendor_tlv : n -> bytes -> bytes
+
+val add_vendor : n -> n -> bytes -> attrs -> attrs res
+
+val strip : n -> bytes -> bool * bytes
+
+val del_vendor : n -> n -> attrs -> attrs
+
+val set_vendor : n -> n -> bytes -> attrs -> attrs res
+
+type hkind =
+| KBytes
+| KConcat
+| KIP4
+| KIP6
+| KIFID
+| KPrefix
+| KDate
+| KInt of nat
+| KByte
+
+type hdesc = { h_type : z; h_kind : hkind; h_tag : bool; h_enc : z;
+               h_size : z option; h_vendor : n option }
+
+type gv = { g_b : bytes; g_u : z; g_mask : bytes }
+
+val gv_b : bytes -> gv
+
+val gv_u : z -> gv
+
+val e_noattr : n
+
+val forced_salt : bytes -> bytes
+
+val tp_wrap : (bytes -> bytes) -> packet -> bytes -> bytes -> bytes res
+
+val h_encode :
+  (bytes -> bytes) -> hdesc -> packet -> bytes -> n -> gv -> bytes res
+
+val chunks : nat -> bytes -> bytes list
+
+val h_add :
+  (bytes -> bytes) -> hdesc -> packet -> bytes -> n -> gv -> packet res
+
+val h_set :
+  (bytes -> bytes) -> hdesc -> packet -> bytes -> n -> gv -> packet res
+
+val h_del : hdesc -> packet -> packet res
+
+val h_decode :
+  (bytes -> bytes) -> hdesc -> packet -> packet -> bytes -> (n * gv) res
+
+val h_raw : hdesc -> packet -> bytes list
+
+val h_lookup : (bytes -> bytes) -> hdesc -> packet -> packet -> (n * gv) res
+
+val decode_all :
+  (bytes -> bytes) -> hdesc -> packet -> packet -> bytes list -> (n * gv)
+  list res
+
+val h_gets :
+  (bytes -> bytes) -> hdesc -> packet -> packet -> (n * gv) list res
 
 type key = n * n
 
@@ -1638,5 +1717,15 @@ val dispatch_merge : bytes -> bytes list -> z list -> tok list option
 val b5 : bytes list -> bytes
 
 val dispatch_mschap : bytes -> bytes list -> z list -> tok list option
+
+val kind_of : z -> z -> hkind
+
+val t_gv : hdesc -> gv -> tok list
+
+val t_tv : hdesc -> (n * gv) -> tok list
+
+val run_hops : hdesc -> packet -> packet -> z list -> bytes list -> tok list
+
+val dispatch_helper : bytes -> bytes list -> z list -> tok list option
 
 val dispatch : bytes -> bytes list -> z list -> tok list
